@@ -29,12 +29,13 @@ MInit == /\ pc = "idle" /\ shape = [kind |-> "test", conv |-> TRUE, fin |-> TRUE
          /\ entry = "none" /\ front = [ok |-> FALSE] /\ st = <<>> /\ parts = NoParts
          /\ out = [ok |-> FALSE, err |-> "none"] /\ nConv = 0 /\ nFin = 0
 
-TE(e) == Err("Parse:" \o e)
+\* The machine is written for any shape: the built-in ones (Generic, Typed) take the same steps, their
+\* conversion and hook being library code; MC_Shapes checks MachineIsParseF for them as well.
 MBeginParse(s, shp) ==
   /\ pc = "idle" /\ shape' = shp /\ entry' = "parse" /\ nConv' = 0 /\ nFin' = 0
   /\ LET f == ParseFront(s) IN
      /\ front' = f /\ st' = <<>> /\ parts' = NoParts
-     /\ IF f.ok THEN pc' = "conv" /\ out' = out ELSE pc' = "end" /\ out' = TE(f.err)
+     /\ IF f.ok THEN pc' = "conv" /\ out' = out ELSE pc' = "end" /\ out' = Err(WrapErr(shp, f.err))
 MBeginBuild(st0, parts0, shp) ==
   /\ pc = "idle" /\ shape' = shp /\ entry' = "build" /\ nConv' = 0 /\ nFin' = 0
   /\ front' = [ok |-> FALSE] /\ st' = st0 /\ parts' = parts0 /\ pc' = "finish" /\ out' = out
@@ -46,21 +47,23 @@ MConv(arg) ==
      IF ~c.ok THEN pc' = "end" /\ out' = c /\ UNCHANGED <<st, parts>>
      ELSE LET bk == ParseBack(front) IN
           IF bk.ok THEN pc' = "finish" /\ st' = c.st /\ parts' = bk.parts /\ out' = out
-          ELSE pc' = "end" /\ out' = TE(bk.err) /\ UNCHANGED <<st, parts>>
+          ELSE pc' = "end" /\ out' = Err(WrapErr(shape, bk.err)) /\ UNCHANGED <<st, parts>>
   /\ UNCHANGED <<shape, entry, front, nFin>>
 \* the hook is called on `before` and leaves `after`; then the generic checks run
-AfterHook(p) ==
+AfterHook(st1, p) ==
   LET n == StepCheckName(shape, p) IN
   IF ~n.ok THEN n ELSE
   LET c == StepChecksum(shape, StepRetain(p), LowerTab) IN
-  IF ~c.ok THEN c ELSE [ok |-> TRUE, v |-> MkValue(shape, st, c.parts)]
+  IF ~c.ok THEN c ELSE [ok |-> TRUE, v |-> MkValue(shape, st1, c.parts)]
 MFinish(before, after, hookOk) ==
-  /\ pc = "finish" /\ before = parts /\ hookOk = shape.fin
+  /\ pc = "finish" /\ before = parts
   /\ nFin' = nFin + 1
-  /\ IF hookOk THEN after = ApplyEdits(before, shape.edits) /\ parts' = after /\ out' = AfterHook(after)
-     ELSE parts' = parts /\ out' = Err("HookError")
+  /\ LET r == StepFinish(shape, st, before, LowerTab) IN
+     /\ hookOk = r.ok
+     /\ IF r.ok THEN after = r.parts /\ parts' = after /\ st' = r.st /\ out' = AfterHook(r.st, after)
+        ELSE parts' = parts /\ st' = st /\ out' = r
   /\ pc' = "end"
-  /\ UNCHANGED <<shape, entry, front, st, nConv>>
+  /\ UNCHANGED <<shape, entry, front, nConv>>
 MEnd(o) == /\ pc = "end" /\ o = out /\ pc' = "idle"
            /\ UNCHANGED <<shape, entry, front, st, parts, out, nConv, nFin>>
 
@@ -72,8 +75,8 @@ C14_Counts == nConv <= 1 /\ nFin <= 1
                 /\ (entry = "build" => nConv = 0)
 C14_AtEnd == pc = "end" =>
      /\ (out.ok => nFin = 1)                                               \* exactly once per successful build
-     /\ (~out.ok /\ out.err = "ConvError" => nConv = 1 /\ nFin = 0 /\ ~shape.conv)
-     /\ (~out.ok /\ out.err = "HookError" => nFin = 1 /\ ~shape.fin)
-     /\ (out.ok => ValidParts(out.v))                                      \* generic checks ran after the hook
+     /\ (~out.ok /\ out.err = "ConvError" => nConv = 1 /\ nFin = 0 /\ shape.kind = "test" /\ ~shape.conv)
+     /\ (~out.ok /\ out.err = "HookError" => nFin = 1 /\ shape.kind = "test" /\ ~shape.fin)
+     /\ (out.ok => ValidFor(shape, out.v))                                      \* generic checks ran after the hook
      /\ (out.ok => out.v.name = parts.name /\ out.v.ns = parts.ns /\ out.v.ver = parts.ver /\ out.v.sub = parts.sub)
 =============================================================================
